@@ -510,7 +510,7 @@ def run(ck):
     ck.rule = ('seeded cases over (sweeper class, M, node family, quadrature type, preconditioner name(s), sweep index k, tau mode, '
                'end-point mode, table source exact-float-image/injected-rational, dimension); distinct = that tuple; non-trivial = M >= 2 '
                'or tau present (a one-node sweep without tau has no off-diagonal coupling)')
-    ck.check_props(required=['C02_generic_implicit_matrix_form', 'C02_imex_matrix_form', 'C02_explicit_matrix_form',
+    ck.check_props(required=['C02_generic_implicit_matrix_form', 'C02_imex_matrix_form', 'C02_explicit_matrix_form', 'C02_multi_implicit_two_stage_form',
                              'C02_integrate_is_dtQF', 'C02_end_point_quadrature', 'C02_residual_is_defect'])
     from qmat.qdelta import QDELTA_GENERATORS
     from pySDC.implementations.sweeper_classes.generic_implicit import generic_implicit
